@@ -26,6 +26,7 @@ struct GenOpts {
   int forceScale = -1;        // -1 tape, 0 unit, 1 decade, 2 nano
   int polarisedPct = 30;      // share of movable cells with a polarity
   bool mismatchedPolarity = true;
+  int mismatchPct = 10;       // share of polarised cells whose polarity does not match their row count (NW/SE on odd, SAME/OPPOSITE on even)
   bool overfull = true;       // allow the over-full utilisation class
   bool nets = true;
   bool legalStart = false;    // construct a legal start (row-high cells only)
@@ -280,7 +281,9 @@ inline CircuitSpec genCircuit(Tape &t, const GenOpts &o) {
     for (int k = 0; k < nseg; ++k) {
       long long w = nseg == 1 ? (t.flip(1, 3) ? t.range(minSegW, maxSegW) : baseW) : t.range(minSegW, std::max(minSegW, baseW / nseg));
       s.rows.emplace_back((int)x, (int)(x + w), (int)(oy + levelY[l]), (int)(oy + levelY[l] + rh), ro);
-      x += w + t.range(1, std::max<long long>(1, 2 * rh));
+      long long gap = t.range(0, std::max<long long>(1, 2 * rh));  // 0: the next segment abuts this one
+      if (gap == 0 && k + 1 < nseg) s.labels.insert("rows:abutting-segments");
+      x += w + gap;
     }
   }
   long long areaMinX = LLONG_MAX, areaMaxX = LLONG_MIN;
@@ -375,7 +378,7 @@ inline CircuitSpec genCircuit(Tape &t, const GenOpts &o) {
     mismatch = false;
     if ((int)(t.next() % 100) >= o.polarisedPct) return (int)CellRowPolarity::ANY;
     bool odd = nrows % 2 != 0;
-    bool mm = o.mismatchedPolarity && t.flip(1, 10);
+    bool mm = o.mismatchedPolarity && t.flip(o.mismatchPct, 100);
     mismatch = mm;
     if (odd != mm) return t.flip() ? (int)CellRowPolarity::SAME : (int)CellRowPolarity::OPPOSITE;
     return t.flip() ? (int)CellRowPolarity::NW : (int)CellRowPolarity::SE;
